@@ -318,6 +318,9 @@ structure State where
   fault : Nat := 0
   pcalls : Nat := 0
   pfault : Nat := 0
+  -- crash plan of the current move: when set, the call number `fault` (and `pfault`) and EVERY later one does not
+  -- happen - the process died before it (see `withCrash`, `stepCrash`, `crashAt`)
+  crashMode : Bool := false
 deriving Repr, Inhabited
 
 inductive Res
@@ -337,12 +340,14 @@ def Out.bad : Out := { res := .inadmissible }
 
 /-! ## apiserver and provider call numbering -/
 
-/-- count one apiserver call; the Bool says whether this call is the one the fault plan fails -/
+/-- count one apiserver call; the Bool says whether this call is the one the fault plan fails.  Under a crash plan the
+    counter stops at the dead call, so that every later call is dead too. -/
 def State.api (s : State) : State × Bool :=
-  ({ s with calls := s.calls + 1 }, s.calls + 1 == s.fault)
+  ({ s with calls := if s.crashMode && s.calls + 1 == s.fault then s.calls else s.calls + 1 }, s.calls + 1 == s.fault)
 
 def provAssign (s : State) (node : String) (ip : IP) : State × Bool :=
   if !s.provOn then (s, true)
+  else if s.crashMode && s.pcalls + 1 == s.pfault then (s, false)      -- the process is dead: the request is never sent
   else
     let fail := s.pcalls + 1 == s.pfault
     ({ s with pcalls := s.pcalls + 1, plog := s.plog ++ [.assign node ip (!fail)],
@@ -350,6 +355,7 @@ def provAssign (s : State) (node : String) (ip : IP) : State × Bool :=
 
 def provUnassign (s : State) (node : String) (ip : IP) : State × Bool :=
   if !s.provOn then (s, true)
+  else if s.crashMode && s.pcalls + 1 == s.pfault then (s, false)
   else
     let fail := s.pcalls + 1 == s.pfault
     ({ s with pcalls := s.pcalls + 1, plog := s.plog ++ [.unassign node ip (!fail)],
@@ -882,6 +888,10 @@ def bindCommit (s : State) (pod : Pod) (ns name : String) (uid : Nat) (node : St
 def bindGuardIPs (F : Facts) (s : State) (pod : Pod) (infos : List (Option IP)) : List IP :=
   if F.bindUidGuardCoversWholeKey then ipsOfKey s (keyOf pod) else infos.filterMap id
 
+/-- `bindCommit` under a crash plan: if the process is dead when it would send pods/binding, nothing is written -/
+def bindCommitX (s : State) (pod : Pod) (ns name : String) (uid : Nat) (node : String) (ips : List IP) : State × Out :=
+  if s.crashMode && s.api.2 then (s.api.1, Out.err "crashed") else bindCommit s pod ns name uid node ips
+
 /-- `Bind(args)`; `uid` is `args.PodUID` (the scheduler's view of the pod it binds) -/
 def bind (F : Facts) (s : State) (ns name : String) (uid : Nat) (node : String) (ch : Choice) : State × Out :=
   match s.vPods.get (ns, name) with
@@ -908,7 +918,7 @@ def bind (F : Facts) (s : State) (ns name : String) (uid : Nat) (node : String) 
                 ((bindAlloc s pod node { policy := policyOf pod, node := node, uid := pod.uid } infos
                   ch.pick).2.2.filterMap id)).2 with
             | .ok =>
-              bindCommit (bindLoop (bindAlloc s pod node { policy := policyOf pod, node := node, uid := pod.uid } infos
+              bindCommitX (bindLoop (bindAlloc s pod node { policy := policyOf pod, node := node, uid := pod.uid } infos
                   ch.pick).1 (keyOf pod) node { policy := policyOf pod, node := node, uid := pod.uid }
                   (infos.filterMap id)
                   ((bindAlloc s pod node { policy := policyOf pod, node := node, uid := pod.uid } infos
@@ -1072,7 +1082,12 @@ inductive Move
 deriving Repr, Inhabited
 
 def withFaults (s : State) (fault pfault : Nat) : State :=
-  { s with calls := 0, fault := fault, pcalls := 0, pfault := pfault, clock := s.clock + 1 }
+  { s with calls := 0, fault := fault, pcalls := 0, pfault := pfault, clock := s.clock + 1, crashMode := false }
+
+/-- crash plan: the process dies after `k` apiserver calls and `j` provider requests of the move (whichever comes
+    first in the move's own order; all pairs are covered, including combinations no real run produces) -/
+def withCrash (s : State) (k j : Nat) : State :=
+  { s with calls := 0, fault := k + 1, pcalls := 0, pfault := j + 1, clock := s.clock + 1, crashMode := true }
 
 def wantsEvent (p : Pod) : Bool := p.wants
 
@@ -1134,6 +1149,33 @@ def step (F : Facts) (s : State) : Move → State × Out
   | .apiRelease ip k fault pfault => apiRelease F (withFaults s fault pfault) ip k
   | .reload pools fault => reload (withFaults s fault 0) pools
   | .restart => restart (withFaults s 0 0)
+
+/-- the move executed under a crash plan (moves without apiserver / provider calls are unaffected) -/
+def stepCrash (F : Facts) (k j : Nat) (s : State) : Move → State × Out
+  | .filter ns name nodes ch _ => filter (withCrash s k j) ns name nodes ch
+  | .bind ns name uid node ch _ _ => bind F (withCrash s k j) ns name uid node ch
+  | .deliver i _ _ => deliver F (withCrash s k j) i
+  | .resync order _ _ => resync F (withCrash s k j) order
+  | .resyncRec ip _ _ =>
+    match s.resyncSnap.get ip with
+    | none => (s, Out.bad)
+    | some r0 => ({ resyncOne F (withCrash s k j) ip r0 with resyncSnap := s.resyncSnap.erase ip }, {})
+  | .syncPodIPs _ => syncPodIPs (withCrash s k j)
+  | .apiRelease ip key _ _ => apiRelease F (withCrash s k j) ip key
+  | .reload pools _ => reload (withCrash s k j) pools
+  | m => step F s m
+
+/-- the configuration a process started after the crash loads: the config map's (the one a crashed reload was
+    applying), else the one in force -/
+def confAfter (s : State) : Move → List Pool
+  | .reload pools _ => sortPools pools
+  | _ => s.pools
+
+/-- the process dies during move `m` after `k` apiserver calls / `j` provider requests and is started again: memory,
+    informer caches, the event queue and a resync pass in progress are gone (pending delete / finish events are LOST),
+    the new process rebuilds memory from the store by `ConfigurePool` -/
+def crashAt (F : Facts) (k j : Nat) (s : State) (m : Move) : State :=
+  (restart (withFaults { (stepCrash F k j s m).1 with pools := confAfter (stepCrash F k j s m).1 m } 0 0)).1
 
 /-- initial state: plugin constructed with `conf`, `Init()` = `ConfigurePool` on an empty store -/
 def init (c : Conf) : State :=
